@@ -106,12 +106,20 @@ def _build_fir(inputs):
         reused += [int(v) for v in g.get_remaining()]
         # after the flush the filter behaves like a new one
         again = list(f.process(x)) + list(f.get_remaining())
+        # ... also for a signal of ANOTHER sample type than the one it was used with before (int64 before, float64 now; and the other way round)
+        xf = x.astype(float) / 4.0 + 0.25
+        fresh_f = FirFilter(h, inputs["m0"])
+        want_f = list(fresh_f.process(xf)) + list(fresh_f.get_remaining())
+        got_f = list(f.process(xf)) + list(f.get_remaining())
+        got_i = list(f.process(x)) + list(f.get_remaining())          # and back to integers on the same object
+        retype = {"float_after_int": [float(v) for v in got_f] == [float(v) for v in want_f] and {type(v).__name__ for v in got_f} <= {"float64"},
+                  "int_after_float": [int(v) for v in got_i] == [int(v) for v in ref] and {type(v).__name__ for v in got_i} <= {"int64"}}
         # independent reference: the valid convolution of zeros(N-1-m0) ++ x ++ zeros(m0), cast like the input block
         N = len(h)
         padded = np.concatenate([np.zeros(N - 1 - inputs["m0"]), x.astype(float), np.zeros(inputs["m0"])])
         indep = np.convolve(padded, h, "valid").astype(x.dtype) if len(padded) >= N else np.asarray([], dtype=x.dtype)
         return {"ref": [int(v) for v in ref], "out": [int(v) for v in out], "again": [int(v) for v in again],
-                "indep": [int(v) for v in indep], "reused": reused, "ref_types": sorted({type(v).__name__ for v in ref})}
+                "indep": [int(v) for v in indep], "reused": reused, "ref_types": sorted({type(v).__name__ for v in ref}), "retype": retype}
     return {"call": run, "env": {}}
 
 
@@ -131,6 +139,9 @@ def _oracle_fir(inputs, kind, val, env):
         bad.append(f"oracle.output-keeps-the-sample-type({val['ref_types']})")
     if val["again"] != val["ref"]:
         bad.append("oracle.flush-resets-the-filter")
+    for k, ok in val["retype"].items():
+        if not ok:
+            bad.append(f"oracle.a-reset-filter-behaves-like-a-new-one-for-another-sample-type({k})")
     return bad
 
 
@@ -153,10 +164,14 @@ def _small_fir(tier, seed, shard=(0, 1)):
         for m0 in range(N):
             for L_ in range(1, maxlen + 1):
                 x = [rnd.randint(-32768, 32767) for _ in range(L_)]
-                for blocks in _compositions(L_):
-                    k += 1
-                    if k % shard[1] == shard[0]:
-                        yield {"h": h, "m0": m0, "x": x, "blocks": blocks}
+                # the same length beginning with digital silence (1 .. L-1 zero samples, then signal) and ending with it
+                z = rnd.randint(1, max(1, L_ - 1))
+                xs = [x, [0] * z + x[z:], x[:L_ - z] + [0] * z] if L_ > 1 else [x, [0]]
+                for xv in xs:
+                    for blocks in _compositions(L_):
+                        k += 1
+                        if k % shard[1] == shard[0]:
+                            yield {"h": h, "m0": m0, "x": xv, "blocks": blocks}
 
 
 @contract("bounded:fir_source", props=["C19"], abstract=True)
@@ -167,6 +182,7 @@ def _bf(c):
 CONCRETE["bounded:fir_source"] = {
     "build": _build_fir, "small": _small_fir, "oracle": _oracle_fir, "shards": 4,
     "bound": "the FirFilter class text extracted from fir.pyx executed on real numpy: kernels of 1..4 taps, every delay offset, "
-             "EVERY composition (ordered block split) of signals of length 1..6 (quick) / 1..9 (thorough) with extreme int16 values",
+             "EVERY composition (ordered block split) of signals of length 1..6 (quick) / 1..9 (thorough) with extreme int16 values, each also beginning / ending with a run of zero samples; "
+             "the flushed filter re-used for a float64 signal and for the int64 signal again",
     "timeout_s": 5.0, "budget_quick": 60, "budget_thorough": 600,
 }
